@@ -51,6 +51,18 @@ inline std::vector<Ell> ellipsoids() {
     double a = (double)(1e7L / e1.quarter_meridian());
     add(b.n, a, f, b.q);
   }
+  // thorough-only additions inside the documented ranges: further flattenings between the rows of the series table and the
+  // remaining rows 1/32 .. 32 of the GeodesicExact table (1/64 and 64 are out of reach of the oracle's quadrature)
+  add("f=1/150", A, 1 / 150.0, false);   add("f=-1/150", A, -1 / 150.0, false);
+  add("f=0.005", A, 0.005, false);       add("f=-0.005", A, -0.005, false);
+  add("f=0.15", A, 0.15, false);         add("f=-0.15", A, -0.15, false);
+  struct BA2 { const char* n; double ba; } bas2[] = {{"b/a=1/4", 0.25}, {"b/a=4", 4.0}, {"b/a=1/8", 0.125}, {"b/a=8", 8.0}, {"b/a=1/32", 1 / 32.0}, {"b/a=32", 32.0}};
+  for (auto& b : bas2) {
+    double f = 1 - b.ba;
+    geod_ode::Ellipsoid<ld> e1(1.0, f);
+    double a = (double)(1e7L / e1.quarter_meridian());
+    add(b.n, a, f, false);
+  }
   return v;
 }
 
